@@ -13,6 +13,9 @@ platform drivers, the two Telnet transports) this translator emits
                 token TEXT, so that it does not depend on the interning);
   gen_allowed : the committed difference list harness/c06_allowed.json (function -> diff hash).
 
+The two variants of each decorator of scrapli/decorators.py (`if asyncio.iscoroutinefunction(wrapped_func): async def
+decorate ... else: def decorate ...`) are a twin pair as well: pair id "decorators", function name = the decorator's.
+
 props/C06.v decides the obligations over these tables by vm_compute."""
 import ast
 import difflib
@@ -116,6 +119,36 @@ def module_functions(path):
     return out, classes
 
 
+DECORATORS_MODULE = "scrapli.decorators"
+DECORATORS_EXPECTED = ("timeout_modifier", "timeout_wrapper")
+
+
+def decorator_variants(path):
+    """{decorator name: (sync `decorate` tokens, async `decorate` tokens)} for every top-level function of the module that
+    picks a variant by asyncio.iscoroutinefunction; fail-closed on any other shape of such a function."""
+    tree = _strip_docstrings(ast.parse(open(path).read()))
+    out = {}
+    for node in tree.body:
+        if not isinstance(node, ast.FunctionDef) or "iscoroutinefunction" not in ast.unparse(node):
+            continue
+        ifs = [n for n in node.body if isinstance(n, ast.If) and "iscoroutinefunction" in ast.unparse(n.test)]
+        if len(ifs) != 1 or ast.unparse(ifs[0].test) != "asyncio.iscoroutinefunction(wrapped_func)":
+            raise ValueError("decorator %s: unexpected variant selection" % node.name)
+        a = [n for n in ifs[0].body if isinstance(n, (ast.FunctionDef, ast.AsyncFunctionDef))]
+        b = [n for n in ifs[0].orelse if isinstance(n, (ast.FunctionDef, ast.AsyncFunctionDef))]
+        if len(a) != 1 or len(b) != 1 or len(ifs[0].body) != 1 or len(ifs[0].orelse) != 1 or a[0].name != b[0].name \
+                or not isinstance(a[0], ast.AsyncFunctionDef) or not isinstance(b[0], ast.FunctionDef):
+            raise ValueError("decorator %s: expected exactly `async def f` / `def f` as the two variants" % node.name)
+        rest = [n for n in node.body if n is not ifs[0]]
+        for n in rest:       # whatever else the decorator does is shared by both variants; it must not define functions
+            if any(isinstance(x, (ast.FunctionDef, ast.AsyncFunctionDef, ast.Lambda)) for x in ast.walk(n)):
+                raise ValueError("decorator %s: function defined outside the variant selection" % node.name)
+        out[node.name] = (_tokens(ast.unparse(b[0])), _tokens(ast.unparse(a[0])))
+    if sorted(out) != sorted(DECORATORS_EXPECTED):
+        raise ValueError("decorators with a sync and a coroutine variant: expected %r, found %r" % (DECORATORS_EXPECTED, sorted(out)))
+    return out
+
+
 def normalise(toks):
     return [RENAME.get(t, t) for t in toks if t not in DROP]
 
@@ -208,6 +241,11 @@ def generate(outdir, repo=None):
             inv = {v: k for k, v in DUNDER_TWIN.items()}
             at = {inv.get(k, k): v for k, v in at.items()}
             classes.append((sc, ac, st, at))
+    dm = importlib.import_module(DECORATORS_MODULE)
+    if not os.path.abspath(dm.__file__).startswith(os.path.abspath(repo) + os.sep):
+        raise ValueError("module %s imported from %s, not from %s" % (dm.__name__, dm.__file__, repo))
+    for k, (st_, at_) in sorted(decorator_variants(dm.__file__).items()):
+        funcs.append(("decorators", k, st_, at_))
     # interning (deterministic: sorted token text)
     vocab = set(DROP) | set(RENAME) | set(RENAME.values())
     for _, _, s, a in funcs:
